@@ -357,6 +357,12 @@ def r16_hoist_arg(text, call, name):
     allowed only when everything evaluated before CALL inside the statement is a plain variable (checked: the text
     between the start of the statement and CALL consists of identifiers, `(`, `,` and whitespace, apart from the
     callee path), so evaluation order is unchanged."""
+    if '(' not in call:
+        # a function name: hoist its (first) call whatever the arguments are
+        mm = re.search(r'\b' + re.escape(call) + r'\(', text)
+        if not mm:
+            return text, 0
+        call = text[mm.start():_balanced(text, mm.end() - 1) + 1]
     k = text.find(call)
     if k < 0:
         return text, 0
